@@ -81,7 +81,7 @@ def cases(seed, tier):
                 targets.append(make_target(rng, rng.choice(HEALTHY), j))
         mode = rng.choice(['text', 'json'])
         opts = rng.choice([['-n'], ['-n', '-b'], []]) if mode == 'text' else rng.choice([['-j'], ['-jj']])
-        c = {'targets': targets, 'mode': mode, 'opts': opts, 'threads': rng.choice([1, 2, k, 32]), 'sched': gen.rand_sched(rng),
+        c = {'targets': targets, 'mode': mode, 'opts': opts, 'threads': rng.choice([1, 2, k, 32]), 'sched': gen.rand_sched(rng, preempt=(tier == 'thorough' and i % 4 == 0) or (tier == 'quick' and i % 16 == 0)),
              'net': {'rtt_us': rng.choice([100, 300, 3000])}, 'pseed': rng.getrandbits(32), 'timeout': rng.choice([1, 2])}
         if rng.random() < 0.3:
             c['extra_lines'] = {str(rng.randrange(k)): ['']}
